@@ -456,9 +456,10 @@ def explore(ctx):
     if ctx.want("key_notes"):
         ctx.serial("key_notes", keys30)
     if ctx.want("lookup"):
-        sigs = list(range(-20, 21)) + [-10 ** 6, -2 ** 31, -100, -15, 15, 100, 2 ** 31, 10 ** 6]
+        # every integer of a wide window (numbers that are in range modulo 12, modulo 256 or modulo 65536 included)
+        sigs = list(range(-1100, 1101)) + list(range(65536 - 20, 65536 + 21)) + [-10 ** 6, -2 ** 31, 2 ** 31, 2 ** 32 - 7, 2 ** 32 + 7, 10 ** 6]
         sigs = sorted(set(sigs))
-        ctx.bound("signature_numbers", "-20..20 and +-100, +-10**6, +-2**31")
+        ctx.bound("signature_numbers", "-1100..1100, 65516..65556 and +-10**6, +-2**31, 2**32-+7")
         ctx.serial("lookup", sigs)
     if ctx.want("relative"):
         ctx.serial("relative", keys30)
